@@ -1,10 +1,360 @@
 package main
 
-// uf_axioms is called when an uninterpreted-function application is first
-// sent to a solver; it asserts the inverse-function axiom instances that make
-// the hash abstractions injective.
+// Abstraction of SHA-256 (and of Ed25519 in the harnesses) by uninterpreted
+// functions made injective with inverse-function axioms.
+//
+//	SHA256(m) = shaF(shaC(... shaC(IV, block_1) ..., block_k), last, len)
+//
+// where the blocks are the full 64-byte blocks of m, "last" is the remaining
+// bytes zero-padded to 64 and len is the message length. Each application
+// gets the ground axioms  inv(sha(x)) = x  (one per argument) and
+// shaC(..) != IV, which make SHA256 injective on messages: exactly the
+// collision-resistance assumption, and nothing else is assumed about it.
+
+import (
+	"crypto/sha256"
+	"fmt"
+	"go/types"
+	"math/big"
+
+	"golang.org/x/tools/go/ssa"
+)
+
+var shaIV = mkBigConst(256, big.NewInt(0))
+
 func uf_axioms(s *Solver, app *Term) {
-	ufAxiomsImpl(s, app)
+	tt := s.tt
+	switch app.name {
+	case "shaC":
+		s.AssertGlobal(tt.Eq(tt.App("shaC_inv0", 256, app), app.args[0]))
+		s.AssertGlobal(tt.Eq(tt.App("shaC_inv1", 512, app), app.args[1]))
+		s.AssertGlobal(tt.Not(tt.Eq(app, shaIV)))
+	case "shaF":
+		s.AssertGlobal(tt.Eq(tt.App("shaF_inv0", 256, app), app.args[0]))
+		s.AssertGlobal(tt.Eq(tt.App("shaF_inv1", 512, app), app.args[1]))
+		s.AssertGlobal(tt.Eq(tt.App("shaF_inv2", 64, app), app.args[2]))
+	default:
+		if len(app.name) > 4 && app.name[:4] == "inj_" {
+			// generic injective function declared by a harness (vUF): one inverse per argument
+			for i, a := range app.args {
+				s.AssertGlobal(tt.Eq(tt.App(fmt.Sprintf("%s_inv%d", app.name, i), a.w, app), a))
+			}
+		}
+	}
 }
 
-var ufAxiomsImpl = func(s *Solver, app *Term) {}
+func (in *Interp) packBytes(bs []*Term, n int) *Term {
+	// little-endian packing (byte i is bits 8i..8i+7, like hash values), zero
+	// padded to n bytes, so that the bytes of a hash re-assemble to the hash term
+	tt := in.tt
+	var acc *Term
+	for i := 0; i < n; i++ {
+		var b *Term
+		if i < len(bs) {
+			b = bs[i]
+		} else {
+			b = mkConst(8, 0)
+		}
+		if acc == nil {
+			acc = b
+		} else {
+			acc = tt.Concat(b, acc)
+		}
+	}
+	return acc
+}
+
+type shaInfo struct {
+	msg []*Term
+}
+
+func (in *Interp) shaTable() map[*Term]*shaInfo {
+	m, _ := in.pathState["shaMsgs"].(map[*Term]*shaInfo)
+	if m == nil {
+		m = map[*Term]*shaInfo{}
+		in.pathState["shaMsgs"] = m
+	}
+	return m
+}
+
+// sha256Term returns the 256-bit digest term of a message of symbolic bytes.
+// Fully concrete messages are hashed for real.
+func (in *Interp) sha256Term(msg []*Term) *Term {
+	allConst := true
+	for _, b := range msg {
+		if !b.IsConst() {
+			allConst = false
+			break
+		}
+	}
+	if allConst {
+		buf := make([]byte, len(msg))
+		for i, b := range msg {
+			buf[i] = byte(b.c)
+		}
+		d := sha256.Sum256(buf)
+		// byte i of the digest is bits 8i..8i+7 of the term (see hashBytes)
+		v := new(big.Int)
+		for i := 31; i >= 0; i-- {
+			v.Lsh(v, 8)
+			v.Or(v, big.NewInt(int64(d[i])))
+		}
+		return mkBigConst(256, v)
+	}
+	tt := in.tt
+	state := shaIV
+	i := 0
+	for ; i+64 <= len(msg); i += 64 {
+		state = tt.App("shaC", 256, state, in.packBytes(msg[i:i+64], 64))
+	}
+	res := tt.App("shaF", 256, state, in.packBytes(msg[i:], 64), mkConst(64, uint64(len(msg))))
+	in.shaTable()[res] = &shaInfo{msg: append([]*Term(nil), msg...)}
+	in.w.usedUF = true
+	return res
+}
+
+func (in *Interp) hashBytes(d *Term) Arr {
+	arr := make(Arr, 32)
+	for i := range arr {
+		arr[i] = in.tt.Extract(d, 8*i+7, 8*i)
+	}
+	return arr
+}
+
+func termsOf(v Value) []*Term {
+	es := sliceElems(v)
+	out := make([]*Term, len(es))
+	for i, e := range es {
+		out[i] = e.(*Term)
+	}
+	return out
+}
+
+func (in *Interp) digestState() map[Ptr][]*Term {
+	m, _ := in.pathState["shaDigests"].(map[Ptr][]*Term)
+	if m == nil {
+		m = map[Ptr][]*Term{}
+		in.pathState["shaDigests"] = m
+	}
+	return m
+}
+
+func init() {
+	reg("crypto/sha256.Sum256", func(in *Interp, c *frame, fn *ssa.Function, a []Value) Value {
+		return in.hashBytes(in.sha256Term(termsOf(a[0])))
+	})
+	reg("crypto/sha256.New", func(in *Interp, c *frame, fn *ssa.Function, a []Value) Value {
+		pkg := in.prog.ImportedPackage("crypto/sha256")
+		dt := pkg.Type("digest")
+		if dt == nil {
+			panic(unsupported("crypto/sha256.digest type not found"))
+		}
+		cell := new(Value)
+		*cell = mkConst(64, 0) // opaque placeholder; state lives in the side table
+		in.digestState()[Ptr(cell)] = []*Term{}
+		return Iface{T: types.NewPointer(dt.Type()), V: Ptr(cell)}
+	})
+	reg("(*crypto/sha256.digest).Write", func(in *Interp, c *frame, fn *ssa.Function, a []Value) Value {
+		p := a[0].(Ptr)
+		st := in.digestState()
+		bs := termsOf(a[1])
+		st[p] = append(st[p], bs...)
+		return Tuple{mkConst(64, uint64(len(bs))), Iface{}}
+	})
+	reg("(*crypto/sha256.digest).Sum", func(in *Interp, c *frame, fn *ssa.Function, a []Value) Value {
+		p := a[0].(Ptr)
+		d := in.hashBytes(in.sha256Term(in.digestState()[p]))
+		prefix, _ := a[1].(Slice)
+		elems := make([]Value, 32)
+		for i := range elems {
+			elems[i] = d[i]
+		}
+		return in.appendSlice(types.NewSlice(types.Typ[types.Uint8]), prefix, elems)
+	})
+	reg("(*crypto/sha256.digest).Reset", func(in *Interp, c *frame, fn *ssa.Function, a []Value) Value {
+		in.digestState()[a[0].(Ptr)] = []*Term{}
+		return nil
+	})
+	reg("(*crypto/sha256.digest).Size", func(in *Interp, c *frame, fn *ssa.Function, a []Value) Value {
+		return mkConst(64, 32)
+	})
+	reg("(*crypto/sha256.digest).BlockSize", func(in *Interp, c *frame, fn *ssa.Function, a []Value) Value {
+		return mkConst(64, 64)
+	})
+
+	// vUF(name string, outBytes int, args ...[]byte) []byte: an injective
+	// uninterpreted function from byte strings to byte strings (harness-level
+	// abstraction of signatures). The native twin is provided by the harness.
+	harnessAPI["vUFBytes"] = func(in *Interp, c *frame, fn *ssa.Function, a []Value) Value {
+		name := "inj_" + sanitize(argStr(a[0]))
+		nOut := argInt(a[1])
+		msg := termsOf(a[2])
+		var arg *Term
+		if len(msg) == 0 {
+			arg = mkConst(8, 0)
+		} else {
+			arg = in.packBytes(msg, len(msg))
+		}
+		app := in.tt.App(fmt.Sprintf("%s_%d_%d", name, len(msg), nOut), 8*nOut, arg)
+		in.w.usedUF = true
+		out := make([]*Term, nOut)
+		for i := range out {
+			out[i] = in.tt.Extract(app, 8*i+7, 8*i)
+		}
+		return termsToSlice(out)
+	}
+}
+
+func bigToHashBytes(v *big.Int) []byte {
+	out := make([]byte, 32)
+	b := v.Bytes()
+	for i := 0; i < len(b) && i < 32; i++ {
+		out[i] = b[len(b)-1-i]
+	}
+	return out
+}
+
+func hashBytesToBig(d []byte) *big.Int {
+	v := new(big.Int)
+	for i := len(d) - 1; i >= 0; i-- {
+		v.Lsh(v, 8)
+		v.Or(v, big.NewInt(int64(d[i])))
+	}
+	return v
+}
+
+// liftHashes rewrites the model values of free hash inputs that the model
+// equates with a SHA-256 application, so that the equation also holds with the
+// real hash function when the counterexample is replayed natively.
+func (w *Worker) liftHashes(inputs []DrawVal) []DrawVal {
+	apps := w.in.shaTable()
+	if len(apps) == 0 {
+		return inputs
+	}
+	// environment: all drawn variables
+	env := map[string]*big.Int{}
+	var vars []*Term
+	for _, d := range w.draws {
+		for _, t := range d.Terms {
+			if !t.IsConst() {
+				vars = append(vars, t)
+			}
+		}
+	}
+	for k, v := range w.solver.Model(vars) {
+		env[k] = v
+	}
+	type hd struct {
+		idx int
+		v   *Term
+	}
+	var hashDraws []hd
+	for i, d := range w.draws {
+		if d.Kind == "hash" && !d.Terms[0].IsConst() {
+			hashDraws = append(hashDraws, hd{i, d.Terms[0]})
+		}
+	}
+	if len(hashDraws) == 0 {
+		return inputs
+	}
+	var order []*Term
+	for a := range apps {
+		order = append(order, a)
+	}
+	for i := 1; i < len(order); i++ {
+		for j := i; j > 0 && order[j].id < order[j-1].id; j-- {
+			order[j], order[j-1] = order[j-1], order[j]
+		}
+	}
+	modelVal := map[*Term]*big.Int{}
+	for _, a := range order {
+		if v := w.solver.Value(a); v != nil {
+			modelVal[a] = v
+		}
+	}
+	for iter := 0; iter < 6; iter++ {
+		memo := map[*Term]*big.Int{}
+		var ufEval func(app *Term, args []*big.Int) *big.Int
+		ufEval = func(app *Term, args []*big.Int) *big.Int {
+			if info := apps[app]; info != nil {
+				buf := make([]byte, len(info.msg))
+				for i, b := range info.msg {
+					buf[i] = byte(b.Eval(env, ufEval, memo).Uint64())
+				}
+				d := sha256.Sum256(buf)
+				return hashBytesToBig(d[:])
+			}
+			if v, ok := modelVal[app]; ok {
+				return v
+			}
+			if v := w.solver.Value(app); v != nil {
+				return v
+			}
+			return big.NewInt(0)
+		}
+		changed := false
+		for _, h := range hashDraws {
+			mv := env[ref(h.v)]
+			orig := mkBigConst(256, hashBytesToBig(inputs[h.idx].B))
+			_ = mv
+			for _, a := range order {
+				if modelVal[a] != nil && modelVal[a].Cmp(orig.bigVal()) == 0 {
+					cyc := false
+					for _, v := range a.Vars() {
+						if v == h.v {
+							cyc = true
+						}
+					}
+					if cyc {
+						continue
+					}
+					real := ufEval(a, nil)
+					if verbose {
+						fmt.Printf("lift: draw %s model=%x matches app t%d (msg %d bytes) real=%x\n", ref(h.v), bigToHashBytes(orig.bigVal()), a.id, len(apps[a].msg), bigToHashBytes(real))
+					}
+					if env[ref(h.v)] == nil || env[ref(h.v)].Cmp(real) != 0 {
+						env[ref(h.v)] = real
+						changed = true
+					}
+					break
+				}
+			}
+		}
+		if !changed {
+			break
+		}
+	}
+	out := append([]DrawVal(nil), inputs...)
+	for _, h := range hashDraws {
+		if v := env[ref(h.v)]; v != nil {
+			out[h.idx].B = bigToHashBytes(v)
+		}
+	}
+	return out
+}
+
+// acyclicityHints: for every free hash input d and every SHA application A
+// whose message depends on d, the constraint d != A; and pairwise
+// distinctness of the free hash inputs. Used only to pick counterexample
+// models that replay with the real hash function, never for verdicts.
+func (w *Worker) acyclicityHints() []*Term {
+	apps := w.in.shaTable()
+	var out []*Term
+	var hs []*Term
+	for _, d := range w.draws {
+		if d.Kind == "hash" && !d.Terms[0].IsConst() {
+			hs = append(hs, d.Terms[0])
+		}
+	}
+	for a := range apps {
+		vs := a.Vars()
+		for _, h := range hs {
+			for _, v := range vs {
+				if v == h {
+					out = append(out, w.tt.Not(w.tt.Eq(h, a)))
+				}
+			}
+		}
+	}
+	return out
+}
